@@ -264,10 +264,10 @@ class Combiner(Node):
                 pe = yield put_token
                 item_to_push.update_node_event(self.id, self.env, "exit")
                 
-                y=out_edge.put(pe, item_to_push)
+                y=out_edge.put(put_token, item_to_push)
                 if y:
                     print(f"T={self.env.now:.2f}: {self.id} puts {item_to_push.id} item into {out_edge.id}  ")
-        elif out_edge.__class__.__name__ == "Buffer":
+        elif out_edge.__class__.__name__ in ("Buffer", "Fleet"):
                 outstore = out_edge
                 put_token = outstore.reserve_put()
                 yield put_token
@@ -515,7 +515,7 @@ class Combiner(Node):
                     #putting the item in the chosen out_edge
                     
                     item.update_node_event(self.id, self.env, "exit")
-                    if self.out_edges[edge_index].__class__.__name__ == "Buffer":
+                    if self.out_edges[edge_index].__class__.__name__ in ["Buffer", "ConveyorBelt", "Fleet"]:
                         self.stats["num_item_processed"] += 1
                         itemput=self.out_edges[edge_index].put(chosen_put_event, item)
                         #itemput = chosen_put_event.resourcename.put(chosen_put_event, item)  # Get the item from the chosen in_edge
